@@ -131,3 +131,10 @@ Print Assumptions cfg_sample_install_uncommitted_rejected.
 Example cfg_sample_cut_accepted : explain_all [1; 2; 3] sample_cfg_cut = [].
 Proof. exact sample_cfg_cut_accepted. Qed.
 Print Assumptions cfg_sample_cut_accepted.
+
+(* a snapshot installed with a commit index below the abstract one: accepted, the abstract
+   commit index keeps the higher value *)
+Example cfg_sample_install_behind_accepted :
+  explain_all [1; 2; 3] sample_cfg_install_behind = [].
+Proof. exact sample_cfg_install_behind_accepted. Qed.
+Print Assumptions cfg_sample_install_behind_accepted.
